@@ -107,3 +107,25 @@ CONTRACTS.append(
         ],
     )
 )
+
+
+# json_schema_property_to_param, the Optional step ("optionality round-trips": a property that is not listed in `required` comes
+# back as Optional[...]): for every entry that has a type and is not marked nullable, the type is wrapped exactly when the name
+# is not required and the type is not an Optional already -- whatever the default is -- and left alone otherwise.
+CONTRACTS.append(
+    Contract(
+        MJ + ":json_schema_property_to_param#optional-iff-not-required",
+        src=MJ + ":json_schema_property_to_param",
+        block=lambda txt: txt.startswith("if name not in required and _param.get('typ')"),
+        params={"_param": {"typ": "str", "default?": "opaque", "doc?": "str"}, "name": "str", "required": "opaque"},
+        ensures=[
+            "implies(not (name in required) and old(field(_param, 'typ')) != '' and not contains(old(field(_param, 'typ')), 'Optional['),"
+            " field(_param, 'typ') == 'Optional[' + old(field(_param, 'typ')) + ']')",
+            "implies(name in required, field(_param, 'typ') == old(field(_param, 'typ')))",
+            # (`nullable` is absent from the declared entry: pop's default False is what the test sees)
+            "implies(old(field(_param, 'typ')) == '' or contains(old(field(_param, 'typ')), 'Optional['), field(_param, 'typ') == old(field(_param, 'typ')))",
+            "field(_param, 'typ') == old(field(_param, 'typ')) or field(_param, 'typ') == 'Optional[' + old(field(_param, 'typ')) + ']'",
+            "present(_param, 'default') == old(present(_param, 'default'))",
+        ],
+    )
+)
